@@ -394,6 +394,37 @@ static void op_mode (char **w) {
     rmtree (dir);
 }
 
+/* path seedpre <base> <reg|link> <perm> <uid> <umask>: _random_write_seed over something that already sits at the seed path
+ * (a file of another owner / mode planted while the daemon ran, or a symlink to a victim file) */
+static void op_seedpre (char **w) {
+    char dir[PATH_MAX], p[PATH_MAX], v[PATH_MAX], buf[8];
+    struct stat st; int fd; volatile int fatal = 0; mode_t after; ssize_t k;
+    snprintf (dir, sizeof dir, "%s/m", w[2]);
+    rmtree (dir);
+    if (mkdir (dir, 0755) < 0) die ("mkdir", dir);
+    chmod (dir, 0755);
+    snprintf (p, sizeof p, "%s/seed", dir);
+    snprintf (v, sizeof v, "%s/victim", dir);
+    fd = open (v, O_CREAT | O_WRONLY | O_TRUNC, 0644); if (fd < 0 || write (fd, "VICTIM", 6) != 6) die ("create", v); close (fd);
+    if (!strcmp (w[3], "link")) { if (symlink (v, p) < 0) die ("symlink", p); }
+    else {
+        fd = open (p, O_CREAT | O_WRONLY, 0600); if (fd < 0) die ("create", p); close (fd);
+        if (chown (p, num (w[5]), num (w[5])) < 0) die ("chown", p);
+        if (chmod (p, num (w[4])) < 0) die ("chmod", p);
+    }
+    set_tgid ("-");
+    conf->got_force = 0;
+    umask ((mode_t) num (w[6]));
+    RUN (fatal, (void) hx_random_write_seed (p, hx_random_seed_bytes ()));
+    after = umask (022); (void) after;
+    memset (buf, 0, sizeof buf);
+    fd = open (v, O_RDONLY); k = fd >= 0 ? read (fd, buf, 7) : -1; if (fd >= 0) close (fd);
+    if (fatal || real_lstat (p, &st) < 0) printf ("mode=- fatal=%s\n", hx_fatal);
+    else printf ("mode=%ld type=%s uid=%u victim=%s\n", (long) (st.st_mode & 07777), S_ISREG (st.st_mode) ? "reg" : S_ISLNK (st.st_mode) ? "link" : "other",
+                 (unsigned) st.st_uid, (k == 6 && !memcmp (buf, "VICTIM", 6)) ? "intact" : "overwritten");
+    rmtree (dir);
+}
+
 /* path lockpre <base> <perm> <uid> <euid> <umask>: lock_create over an existing lock file */
 static void op_lockpre (char **w) {
     char dir[PATH_MAX], p[PATH_MAX], p2[PATH_MAX];
@@ -436,6 +467,7 @@ int main (void) {
             else if (!strcmp (w[1], "key") && n == 12) op_key (w);
             else if (!strcmp (w[1], "seed") && n == 13) op_seed (w);
             else if (!strcmp (w[1], "mode") && n == 5) op_mode (w);
+            else if (!strcmp (w[1], "seedpre") && n == 7) op_seedpre (w);
             else if (!strcmp (w[1], "lockpre") && n == 7) op_lockpre (w);
             else if (!strcmp (w[1], "gate") && n == 8) op_gate (w);
             else if (!strcmp (w[1], "fsinit") && n == 3) op_fsinit (w);
